@@ -42,9 +42,9 @@ TIES = {
                         ("C15", ["DsProofs.TieM.TIEM_walk"])]),
     "utilelem": dict(translator="translate_util", targets=["GenU", "TieU"], audit="AuditTieU.lean", root="TieU", driver=None,
                      modules=["GenU.Elem", "TieU.Properties"],
-                     what="SklearnModelAccuracy.elementwise_score / elementwise_null_score, SklearnModelRocAuc.elementwise_score (harness/translate_util.py -> lean/GenU/Elem.lean)",
+                     what="SklearnModelAccuracy.elementwise_score / elementwise_null_score, SklearnModelRocAuc.elementwise_score / elementwise_null_score (harness/translate_util.py -> lean/GenU/Elem.lean)",
                      reg=[("C14", ["DsProofs.TieU.TIEU_acc_elem", "DsProofs.TieU.TIEU_acc_null", "DsProofs.TieU.TIEU_auc_elem", "DsProofs.TieU.TIEU_C14_acc",
-                                   "DsProofs.TieU.TIEU_C14_acc_null", "DsProofs.TieU.TIEU_C14_auc"])]),
+                                   "DsProofs.TieU.TIEU_C14_acc_null", "DsProofs.TieU.TIEU_C14_auc", "DsProofs.TieU.TIEU_auc_null"])]),
     "query": dict(translator="translate_query", targets=["GenQ", "TieQ", "genqdriver"], audit="AuditTieQ.lean", root="TieQ", driver=GENQDRIVER,
                   modules=["GenQ.Query", "TieQ.Properties"],
                   what="Provenance.query from the shape checks to the returned mask / indices (harness/translate_query.py -> lean/GenQ/Query.lean)",
@@ -73,10 +73,10 @@ TIES = {
                            ("C12", ["DsProofs.TieC.TIEC_fork", "DsProofs.TieC.TIEC_getitem"])]),
     "addops": dict(translator="translate_addops", targets=["GenD", "TieD"], audit="AuditTieD.lean", root="TieD", driver=None,
                    modules=["GenD.Ops", "TieD.Properties", "TieD.Reach"],
-                   what="ADD.restrict, ADD.modelcount, ADD.sum, ADD.update, ADD.construct_chain, ShapleyOracle.__init__, ShapleyOracle.query (harness/translate_addops.py -> lean/GenD/Ops.lean)",
+                   what="ADD.restrict, ADD.modelcount, ADD.sum, ADD.concatenate, ADD.stack, ADD.update, ADD.construct_chain, ShapleyOracle.__init__, ShapleyOracle.query (harness/translate_addops.py -> lean/GenD/Ops.lean)",
                    reg=[("C10", ["DsProofs.TieD.TIED_restrict", "DsProofs.TieD.TIED_modelcount", "DsProofs.TieD.TIED_restrict_reach", "DsProofs.TieD.TIED_modelcount_reach",
-                                 "DsProofs.TieD.reach_shape", "DsProofs.TieD.TIED_sum", "DsProofs.TieD.TIED_update", "DsProofs.TieD.TIED_chain"]),
-                        ("C09", ["DsProofs.TieD.TIED_query", "DsProofs.TieD.TIED_init", "DsProofs.TieD.TIED_restrict_reach", "DsProofs.TieD.TIED_modelcount_reach", "DsProofs.TieD.TIED_sum"]),
+                                 "DsProofs.TieD.reach_shape", "DsProofs.TieD.TIED_sum", "DsProofs.TieD.TIED_update", "DsProofs.TieD.TIED_chain", "DsProofs.TieD.TIED_concat", "DsProofs.TieD.TIED_stack"]),
+                        ("C09", ["DsProofs.TieD.TIED_query", "DsProofs.TieD.TIED_init", "DsProofs.TieD.TIED_restrict_reach", "DsProofs.TieD.TIED_modelcount_reach", "DsProofs.TieD.TIED_sum", "DsProofs.TieD.TIED_concat", "DsProofs.TieD.TIED_stack"]),
                         ("C02", ["DsProofs.TieD.TIED_query"])]),
     "exprops": dict(translator="translate_expr", targets=["GenE", "TieE"], audit="AuditTieE.lean", root="TieE", driver=None,
                     modules=["GenE.Ops", "TieE.Properties"],
@@ -84,9 +84,24 @@ TIES = {
                     reg=[("C11", ["DsProofs.TieE.TIEE_and", "DsProofs.TieE.TIEE_or", "DsProofs.TieE.TIEE_C11_and", "DsProofs.TieE.TIEE_C11_or"])]),
     "provinit": dict(translator="translate_init", targets=["GenI", "TieI"], audit="AuditTieI.lean", root="TieI", driver=None,
                      modules=["GenI.Init", "TieI.Properties"],
-                     what="the data path of Provenance.__init__ for 1-D data: default container and group identifiers (template translation, harness/translate_init.py -> lean/GenI/Init.lean)",
+                     what="Provenance.__init__: the data path for 1-D data (default container, group identifiers) and the expressions path (padding and stacking of the formulas) (template translation, harness/translate_init.py -> lean/GenI/Init.lean)",
                      reg=[("C12", ["DsProofs.TieI.TIEI_default", "DsProofs.TieI.TIEI_groups"]),
-                          ("C01", ["DsProofs.TieI.TIEI_default", "DsProofs.TieI.TIEI_groups"])]),
+                          ("C01", ["DsProofs.TieI.TIEI_default", "DsProofs.TieI.TIEI_groups"]),
+                          ("C11", ["DsProofs.TieI.TIEI_exprs"]),
+                          ("C05", ["DsProofs.TieI.TIEI_exprs"])]),
+    "front": dict(translator="translate_front", targets=["GenS", "TieS"], audit="AuditTieS.lean", root="TieS", driver=None,
+                  modules=["GenS.Front", "TieS.Properties"],
+                  what="the front end of a run: Importance.fit / score, ShapleyImportance.__init__ / _fit / _score / _shapley - argument routing to the three algorithms, provenance choice, units / world resolution (harness/translate_front.py -> lean/GenS/Front.lean)",
+                  reg=[("C06", ["DsProofs.TieS.TIES_route", "DsProofs.TieS.TIES_knobs"]),
+                       ("C04", ["DsProofs.TieS.TIES_route", "DsProofs.TieS.TIES_knobs"]),
+                       ("C16", ["DsProofs.TieS.TIES_route", "DsProofs.TieS.TIES_knobs"]),
+                       ("C20", ["DsProofs.TieS.TIES_route", "DsProofs.TieS.TIES_knobs"]),
+                       ("C03", ["DsProofs.TieS.TIES_route", "DsProofs.TieS.TIES_methods"]),
+                       ("C01", ["DsProofs.TieS.TIES_route", "DsProofs.TieS.TIES_provenance", "DsProofs.TieS.TIES_provenance_default", "DsProofs.TieS.TIES_units_default",
+                                "DsProofs.TieS.TIES_world_default"]),
+                       ("C12", ["DsProofs.TieS.TIES_units", "DsProofs.TieS.TIES_units_keys", "DsProofs.TieS.TIES_world", "DsProofs.TieS.TIES_provenance",
+                                "DsProofs.TieS.TIES_provenance_arg_wins"]),
+                       ("C17", ["DsProofs.TieS.TIES_units_keys", "DsProofs.TieS.TIES_units_default", "DsProofs.TieS.TIES_units_unknown"])]),
     "ucall": dict(translator="translate_ucall", targets=["GenK", "TieK"], audit="AuditTieK.lean", root="TieK", driver=None,
                   modules=["GenK.UCall", "TieK.Properties"],
                   what="the failure handler of SklearnModelUtility.__call__, SklearnModelUtility.null_score (harness/translate_ucall.py -> lean/GenK/UCall.lean)",
